@@ -7,6 +7,7 @@ import (
 	"go/ast"
 	"go/token"
 	"go/types"
+	"golang.org/x/tools/go/types/typeutil"
 	"sort"
 	"strings"
 )
@@ -32,6 +33,7 @@ func authCredential(p *Program, fd *ast.FuncDecl) (cred string, why string) {
 		return "", fmt.Sprintf("%d statements: no room for source, guard and call", len(list))
 	}
 	defs := map[types.Object][]ast.Expr{} // local -> assigned expressions, in order
+	var helperTok, helperOK types.Object  // results of a first-value helper, when one is used
 	var vals types.Object
 	kind, name := "", ""
 	guardAt, srcAt := -1, -1
@@ -79,6 +81,25 @@ func authCredential(p *Program, fd *ast.FuncDecl) (cred string, why string) {
 				}
 			}
 		case *ast.AssignStmt:
+			// tok, ok := firstOf(<source>) with a helper that returns (values[0], true) / ("", false when empty)
+			if len(x.Lhs) == 2 && len(x.Rhs) == 1 && vals == nil {
+				if hc, isCall := ast.Unparen(x.Rhs[0]).(*ast.CallExpr); isCall && len(hc.Args) == 1 {
+					if k, n := source(hc.Args[0]); k != "" {
+						fo, _ := typeutil.Callee(info, hc).(*types.Func)
+						if fo != nil && firstValueHelper(p, fo) {
+							tokObj, okObj := identObj(info, x.Lhs[0]), identObj(info, x.Lhs[1])
+							if tokObj == nil || okObj == nil {
+								return "", "helper results are not bound to variables"
+							}
+							kind, name, srcAt = k, n, i
+							helperTok, helperOK = tokObj, okObj
+							vals = okObj // marks "source seen"
+							continue
+						}
+					}
+				}
+				return "", "unexpected two-value assignment"
+			}
 			if len(x.Lhs) != 1 || len(x.Rhs) != 1 || (x.Tok != token.DEFINE && x.Tok != token.ASSIGN) {
 				return "", "unexpected assignment form"
 			}
@@ -101,6 +122,11 @@ func authCredential(p *Program, fd *ast.FuncDecl) (cred string, why string) {
 			}
 			be, ok := ast.Unparen(x.Cond).(*ast.BinaryExpr)
 			okLen := false
+			if helperOK != nil {
+				if ue, isNot := ast.Unparen(x.Cond).(*ast.UnaryExpr); isNot && ue.Op == token.NOT && identObj(info, ue.X) == helperOK {
+					okLen = true
+				}
+			}
 			if ok && be.Op == token.EQL {
 				if call, ok := be.X.(*ast.CallExpr); ok && len(call.Args) == 1 && c.isObj(call.Args[0], vals) {
 					if id, ok := call.Fun.(*ast.Ident); ok && id.Name == "len" {
@@ -153,12 +179,16 @@ func authCredential(p *Program, fd *ast.FuncDecl) (cred string, why string) {
 			return "token is not values[0]"
 		case *ast.Ident:
 			o := identObj(info, x)
+			if helperTok != nil && o == helperTok && len(defs[o]) == 0 {
+				return "" // the helper's first result: values[0]
+			}
 			ds := defs[o]
 			if len(ds) == 0 {
 				return "token variable " + x.Name + " is never bound"
 			}
 			// every binding must itself flow from the source (the last one is what is passed; the
 			// earlier ones may be its inputs: token = hs[0]; token = TrimPrefix(token, …))
+			based := helperTok != nil && o == helperTok
 			for _, d := range ds {
 				self := false
 				ast.Inspect(d, func(n ast.Node) bool {
@@ -182,6 +212,10 @@ func authCredential(p *Program, fd *ast.FuncDecl) (cred string, why string) {
 				if why := flows(d, depth+1); why != "" {
 					return why
 				}
+				based = true
+			}
+			if !based {
+				return "token variable " + x.Name + " is only ever derived from itself"
 			}
 			return ""
 		case *ast.CallExpr:
@@ -208,6 +242,70 @@ func authCredential(p *Program, fd *ast.FuncDecl) (cred string, why string) {
 	default:
 		return "apikey:" + kind + ":" + name, ""
 	}
+}
+
+// firstValueHelper: func(values []string) (string, bool) that returns (values[0], true) when the
+// list is non-empty and (<anything>, false) otherwise — both orders of the test are accepted.
+func firstValueHelper(p *Program, fo *types.Func) bool {
+	fd := declOfObj(p, fo)
+	if fd == nil || fd.Recv != nil || fd.Body == nil {
+		return false
+	}
+	info := p.Pkg.TypesInfo
+	c := &rmCtx{p: p, info: info}
+	ps := paramObjs(info, fd)
+	sig := fo.Type().(*types.Signature)
+	if len(ps) != 1 || sig.Results().Len() != 2 || !types.Identical(sig.Results().At(1).Type(), types.Typ[types.Bool]) || len(fd.Body.List) != 2 {
+		return false
+	}
+	v := ps[0]
+	ifs, ok1 := fd.Body.List[0].(*ast.IfStmt)
+	last, ok2 := fd.Body.List[1].(*ast.ReturnStmt)
+	if !ok1 || !ok2 || ifs.Else != nil || ifs.Init != nil || len(ifs.Body.List) != 1 {
+		return false
+	}
+	inner, ok := ifs.Body.List[0].(*ast.ReturnStmt)
+	if !ok || len(inner.Results) != 2 || len(last.Results) != 2 {
+		return false
+	}
+	isFirst := func(ret *ast.ReturnStmt) bool {
+		ix, ok := ast.Unparen(ret.Results[0]).(*ast.IndexExpr)
+		if !ok || !c.isObj(ix.X, v) {
+			return false
+		}
+		k, ok := c.constInt(ix.Index)
+		tv := info.Types[ret.Results[1]]
+		return ok && k == 0 && tv.Value != nil && tv.Value.String() == "true"
+	}
+	isNone := func(ret *ast.ReturnStmt) bool {
+		tv := info.Types[ret.Results[1]]
+		return tv.Value != nil && tv.Value.String() == "false"
+	}
+	// condition: len(v) == 0 | len(v) < 1 (empty)  or  len(v) > 0 | len(v) != 0 | len(v) >= 1 (non-empty)
+	be, ok := ast.Unparen(ifs.Cond).(*ast.BinaryExpr)
+	if !ok {
+		return false
+	}
+	call, ok := ast.Unparen(be.X).(*ast.CallExpr)
+	if !ok || len(call.Args) != 1 || !c.isObj(call.Args[0], v) {
+		return false
+	}
+	if id, ok := call.Fun.(*ast.Ident); !ok || id.Name != "len" {
+		return false
+	}
+	k, ok := c.constInt(be.Y)
+	if !ok {
+		return false
+	}
+	empty := be.Op == token.EQL && k == 0 || be.Op == token.LSS && k == 1 || be.Op == token.LEQ && k == 0
+	nonEmpty := be.Op == token.GTR && k == 0 || be.Op == token.NEQ && k == 0 || be.Op == token.GEQ && k == 1
+	switch {
+	case empty:
+		return isNone(inner) && isFirst(last)
+	case nonEmpty:
+		return isFirst(inner) && isNone(last)
+	}
+	return false
 }
 
 // recogniseOrCombinator checks authMiddlewareOr and middlewares.
